@@ -635,7 +635,7 @@ func (g *G) genC15(p *Plan) {
 var hostileKeys = []string{
 	"../bkt-bbb/victim", "a/../../bkt-bbb/victim", "../../metadata/bkt-bbb/x", "./victim", "a/./b", "a/../victim", "..", ".",
 	"a//b", "/lead", "a///b", ".hidden", "dir/.hidden", "back\\slash", "a\\..\\b", "pct%2Fenc", "pct%41", "%2e%2e/x",
-	"victim", "victim/child", "a", "a/b", "a/b/c", "dir", "dir/obj", "a_b", "a-b", "dir_obj",
+	"victim", "victim/child", "a", "a/b", "a/b/c", "dir", "dir/obj", "a_b", "a-b", "dir_obj", "a\\b", "dir\\obj", "a\\b\\c", "a/b\\c", "Victim", "DIR/OBJ",
 	".modtime-resolution", "metadata", "buckets", "_meta", "bucket/bkt-aaa", "victim-" + "0000000000000000",
 	strings.Repeat("L", 255), strings.Repeat("M", 256), "seg/" + strings.Repeat("N", 300) + "/end",
 	"fresh/" + strings.Repeat("P", 300), "fresh2/er/" + strings.Repeat("Q", 256), "seg3/" + strings.Repeat("R", 300) + "/x/y",
